@@ -29,6 +29,7 @@ pub mod manager;
 pub mod httppages;
 pub mod ribmetrics;
 pub mod rotorib;
+pub mod rotomethods;
 pub mod reconfunits;
 pub mod vribquery;
 pub mod configload;
